@@ -235,9 +235,9 @@ func concurrentPhase(env *vh.Env, rep *vh.Report) {
 		vh.Die("cannot start the concurrent-encoders child: %v", err)
 	}
 	go func() { done <- cmd.Wait() }()
-	limit := 90 * time.Second
+	limit := 10 * time.Minute
 	if env.Thorough {
-		limit = 10 * time.Minute
+		limit = 30 * time.Minute
 	}
 	var werr error
 	select {
